@@ -227,6 +227,22 @@ pub fn run_case(c: &Case, ctx: &mut Ctx) -> CaseResult {
             }
         }
     }
+    // the same planted matrix once more with every entry multiplied by 2^-60 (one case in four): all non-zero
+    // entries are then far below f64::EPSILON but still not zero, so "is this row/column zero?" must not be
+    // answered with an absolute tolerance.  (Exact: powers of two; the sub-check is structural.)
+    let tiny = c.idx % 4 == 0;
+    ctx.class_if(tiny, "zero_rows_cols_at_scale_2^-60");
+    if tiny {
+        let k = 2f64.powi(-60);
+        for r in fz.mat.rows.iter_mut() {
+            for v in r.iter_mut() {
+                *v *= k;
+            }
+        }
+        for v in fz.bias.iter_mut() {
+            *v *= k;
+        }
+    }
     let fzl = fz.lib();
     let fzq = fz.q();
     let keep_rows: Vec<usize> = (0..p).filter(|i| !(fz.mat.rows[*i].iter().all(|v| *v == 0.0) && fz.bias[*i] == 0.0)).collect();
@@ -351,7 +367,7 @@ impl Property for C16 {
         "C16"
     }
     fn rule(&self) -> String {
-        "dims n,m,p in 1..8 (thorough 1..10), small dyadic matrices/biases/inputs (library arithmetic exact, compared bit-for-bit with rational evaluation), planted zero rows/columns, hyperplanes through the test point; every operator in all ownership/view variants, compose/stack/row/row_iter/remove_*/from_row_iter/view/conversions/all four PolyRepr, every named constructor against its doc sentence. Non-trivial = matrix non-square or non-symmetric and dim >= 2; distinct = distinct serialised cases".into()
+        "dims n,m,p in 1..8 (thorough 1..10), small dyadic matrices/biases/inputs (library arithmetic exact, compared bit-for-bit with rational evaluation), matrices in row- or column-major layout, planted zero rows/columns, hyperplanes through the test point; every operator in all ownership/view variants, compose/stack/row/row_iter/remove_*/from_row_iter/view/conversions/all four PolyRepr, every named constructor against its doc sentence. Non-trivial = matrix non-square or non-symmetric and dim >= 2; distinct = distinct serialised cases".into()
     }
     fn assumptions(&self) -> Vec<String> {
         vec![
